@@ -275,6 +275,53 @@ def root_and_chain(e):
             return e, list(reversed(chain))
 
 
+def loop_form_as_fold(gkv):
+    """`if let Some(p) = self.0.get_key_value(path) { Some(x) } else { let mut found = INIT; for PAT in ITER { if C { found = E } } found.into() }` (what the
+    canonical form makes of an early return followed by a loop) rewritten as the chain `<exact>.map(|p| x).or_else(|| ITER.fold(INIT, |found, PAT| if C { E } else { found }).into())`,
+    which is the form H1 / H2 read.  Any other body is returned unchanged."""
+    import copy
+
+    st = gkv.body["stmts"]
+    if len(st) != 1 or st[0]["k"] != "expr" or st[0]["e"]["k"] != "if" or st[0]["e"]["cond"]["k"] != "letcond" or st[0]["e"].get("else") is None:
+        return gkv
+    top = st[0]["e"]
+    pat = top["cond"]["pat"]
+    if not (pat["k"] == "tuplestruct" and pat["path"]["segs"][-1] == "Some" and len(pat["elems"]) == 1):
+        return gkv
+    then = top["then"]
+    while then["k"] == "block" and len(then["stmts"]) == 1 and then["stmts"][0]["k"] == "expr":
+        then = then["stmts"][0]["e"]
+    if not (then["k"] == "call" and path_of(then["f"]) == "Some" and len(then["args"]) == 1):
+        return gkv
+    els = top["else"]
+    es = els["stmts"] if els["k"] == "block" else None
+    if not es or len(es) != 3 or es[0]["k"] != "let" or es[0]["pat"]["k"] != "ident" or es[0].get("init") is None or es[1]["k"] != "expr" or es[1]["e"]["k"] != "for" or es[2]["k"] != "expr":
+        return gkv
+    acc = es[0]["pat"]["name"]
+    lp = es[1]["e"]
+    lb = lp["body"]["stmts"] if lp["body"]["k"] == "block" else [{"k": "expr", "e": lp["body"]}]
+    tail = es[2]["e"]
+    if not (tail["k"] == "mcall" and tail["m"] == "into" and path_of(tail["recv"]) == acc):
+        return gkv
+    if len(lb) != 1 or lb[0]["k"] != "expr" or lb[0]["e"]["k"] != "if" or lb[0]["e"].get("else") is not None or lb[0]["e"]["cond"]["k"] == "letcond":
+        return gkv
+    inner = lb[0]["e"]
+    ts = inner["then"]["stmts"] if inner["then"]["k"] == "block" else [{"k": "expr", "e": inner["then"]}]
+    if len(ts) != 1 or ts[0]["k"] != "expr" or ts[0]["e"]["k"] != "assign" or path_of(ts[0]["e"]["lhs"]) != acc:
+        return gkv
+    l = top.get("l", 0)
+    accp = {"k": "path", "l": l, "p": acc, "segs": [acc]}
+    step = {"k": "if", "l": l, "cond": inner["cond"], "then": {"k": "block", "l": l, "stmts": [{"k": "expr", "l": l, "e": ts[0]["e"]["rhs"], "semi": False}]}, "else": {"k": "block", "l": l, "stmts": [{"k": "expr", "l": l, "e": accp, "semi": False}]}}
+    it = lp["e"]
+    fold = {"k": "mcall", "l": l, "m": "fold", "recv": it, "args": [es[0]["init"], {"k": "closure", "l": l, "params": [{"k": "ident", "name": acc, "l": l}, lp["pat"]], "body": step}]}
+    fb = {"k": "closure", "l": l, "params": [], "body": {"k": "mcall", "l": l, "m": "into", "recv": fold, "args": []}}
+    exact_map = {"k": "mcall", "l": l, "m": "map", "recv": top["cond"]["e"], "args": [{"k": "closure", "l": l, "params": [pat["elems"][0]], "body": then["args"][0]}]}
+    chain = {"k": "mcall", "l": l, "m": "or_else", "recv": exact_map, "args": [fb]}
+    g = copy.copy(gkv)
+    g.node = dict(gkv.node, body={"k": "block", "l": l, "stmts": [{"k": "expr", "l": l, "e": chain, "semi": False}]})
+    return g
+
+
 def h2(rep, src, gkv):
     rep.rule(
         "H2",
@@ -799,33 +846,56 @@ def h10(rep, src):
         return
     fa, fb = fa[0], fb[0]
     vp = [p["pat"]["name"] for p in fa.params if not p.get("self") and p["pat"]["k"] == "ident" and "Vec<String>" in p["ty"].replace(" ", "")]
-    # (a) the forwarding closure: the second filter_map over self.field_inputs()
-    fms = [m for m in find(fa.body, "mcall") if m["m"] == "filter_map" and m["args"] and m["args"][0]["k"] == "closure" and "field_inputs" in show(m["recv"], 0)]
-    fwd = [m for m in fms if not any(is_call_to(c, "Expr::coalesce") for c in find(m["args"][0], "call"))]
+    # (a) the forwarding of the un-coalesced fields: the iteration over self.field_inputs() that does not build Expr::coalesce, written
+    #     `filter_map(|..| (!vec.contains(col)).then_some(..))`, `filter_map(|..| if !vec.contains(col) { Some(..) } else { None })` or `filter(|..| !vec.contains(col)).map(..)`
+    def neg_contains(c):
+        neg = False
+        while c["k"] in ("paren", "unary"):
+            if c["k"] == "unary" and c["op"].strip() == "!":
+                neg = not neg
+            c = c["e"]
+        return neg and c["k"] == "mcall" and c["m"] == "contains" and path_of(c["recv"]) == vp[0] and len(c["args"]) == 1
+
+    def tail_of(body):
+        t = body
+        while t["k"] == "block":
+            st = t["stmts"]
+            t = st[-1]["e"] if st and st[-1]["k"] == "expr" and not st[-1].get("semi") else {"k": "none"}
+        return t
+
+    chains = []
+    for m in find(fa.body, "mcall"):
+        r, ch = m, []
+        while r["k"] == "mcall":
+            ch.insert(0, r)
+            r = r["recv"]
+        if ch and ch[0]["m"] == "field_inputs" and path_of(r) == "self" and len(ch) > 1:
+            chains.append(ch)
+    chains = [c for c in chains if not any(len(o) > len(c) and o[: len(c)] == c for o in chains)]
+    fwd = [c for c in chains if not any(is_call_to(x, "Expr::coalesce") for m in c for x in find(m, "call"))]
     a_plain = None
     a_txt = None
     if len(fwd) == 1 and vp:
-        cl = fwd[0]["args"][0]
-        lets = {l["pat"]["name"]: l["init"] for l in find(cl["body"], "let") if l["pat"]["k"] == "ident" and l.get("init") is not None}
-        tail = cl["body"]
-        while tail["k"] == "block":
-            st = tail["stmts"]
-            tail = st[-1]["e"] if st and st[-1]["k"] == "expr" and not st[-1].get("semi") else {"k": "none"}
-        a_txt = show(cl["body"], 160)
-        cond = None
-        if tail["k"] == "mcall" and tail["m"] in ("then_some", "then"):
-            cond = tail["recv"]
-        elif tail["k"] == "if" and tail.get("else") is not None:
-            cond = tail["cond"]
-        other_stmts = [x for x in walk(cl["body"]) if x["k"] in ("return", "assign") or (x["k"] == "mcall" and x["m"] in ("push", "insert", "extend", "remove"))]
-        if cond is not None and not other_stmts:
-            c = cond
-            neg = False
-            while c["k"] in ("paren", "unary"):
-                if c["k"] == "unary" and c["op"].strip() == "!":
-                    neg = not neg
-                c = c["e"]
-            a_plain = neg and c["k"] == "mcall" and c["m"] == "contains" and path_of(c["recv"]) == vp[0] and len(c["args"]) == 1
+        ch = fwd[0]
+        sel = [m for m in ch[1:] if m["m"] in ("filter_map", "filter", "take", "skip", "take_while", "skip_while", "step_by")]
+        a_txt = show(ch[-1], 200)
+        if len(sel) == 1 and sel[0]["args"] and sel[0]["args"][0]["k"] == "closure":
+            cl = sel[0]["args"][0]
+            other_stmts = [x for x in walk(cl["body"]) if x["k"] in ("return", "assign") or (x["k"] == "mcall" and x["m"] in ("push", "insert", "extend", "remove"))]
+            tail = tail_of(cl["body"])
+            if sel[0]["m"] == "filter":
+                a_plain = not other_stmts and neg_contains(tail)
+            elif sel[0]["m"] == "filter_map":
+                cond = None
+                if tail["k"] == "mcall" and tail["m"] in ("then_some", "then"):
+                    cond = tail["recv"]
+                elif tail["k"] == "if" and tail.get("else") is not None:
+                    cond = tail["cond"]
+                a_plain = cond is not None and not other_stmts and neg_contains(cond)
+            else:
+                a_plain = False
+        elif not sel:
+            a_plain = False  # nothing is dropped: coalesced columns are forwarded twice - not "every un-coalesced field once", but nothing is lost either
         else:
             a_plain = False
     # (b) the hierarchy handed to the select-items resolver
@@ -870,6 +940,7 @@ def run(rep):
     from .canon import canon_view
 
     gkv = canon_view(src.one_fn(name="get_key_value", file=HF, self_ty_re=r"^Hierarchy<"), src, helpers=False)  # named locals (`let found = ..fold(..)`) read through
+    gkv = loop_form_as_fold(gkv)
     fold, pred = h2(rep, src, gkv)
     if fold is None:
         rep.rule("H1", "ambiguity is absorbing (fold of get_key_value)", floor=9)
